@@ -90,6 +90,10 @@ def stepOnDisk (st : St) (cmd : String) (h : Nat) (args : List String) : St × S
             let (o', bytes) := o.exportBytes
             (st.put h (.ondisk o' hg),
               facets (("ret", "None") :: ("payload", showHex bytes) :: ("trace", showTrace (traceOf o.file [o.updateStep o.count])) :: odObs o'))
+        | "od.clear" =>
+            let o' := o.clear
+            (st.put h (.ondisk o' hg),
+              facets (("ret", "None") :: ("trace", showTrace (traceOf o.file o.clearSteps)) :: odObs o'))
         | "od.obs" => (st, facets (("ret", "None") :: odObs o))
         | _ => (st, "bad-op")
     | _ => (st, "bad-handle")
